@@ -56,7 +56,8 @@ PINS: dict[str, dict[str, str]] = {
     "visitCompare_op_bitwise_or_pair": {"2e68944a": "as-found"},
     "visitAwait_primary": {"3bef54fa": "as-found"},
     "visitPrimary": {"27f264b8": "as-found"},
-    "_process_slices": {"c0738f2e": "as-found", "d1724bef": "comma-aware"},
+    "_process_slices": {"c0738f2e": "as-found", "d1724bef": "comma-aware",
+                        "8b7e649b": "comma-aware"},   # /var/tmp/fixes/C08-one-element-tuple (starred slices are outside the model)
     "visitAtom": {"01dd32d8": "as-found"},
     "visitKwarg_or_starred": {"9e7127a5": "as-found"},
     "visitKwarg_or_double_starred": {"3b5df11e": "as-found"},
